@@ -514,23 +514,15 @@ impl tokio::io::AsyncRead for RecvStream {
 
 impl Drop for RecvStream {
     fn drop(&mut self) {
-        if self.all_data_read {
-            debug_assert!(
-                !self
-                    .conn
-                    .state
-                    .lock("RecvStream:drop")
-                    .blocked_readers
-                    .contains_key(&self.stream),
-                "Stream {} should not have a blocked reader when all data read is true",
-                self.stream
-            );
-            return;
-        }
         let mut conn = self.conn.state.lock("RecvStream::drop");
 
-        // clean up any previously registered wakers
+        // clean up any previously registered wakers (a cancelled `received_reset` may have left one
+        // behind even if all data was read afterwards)
         conn.blocked_readers.remove(&self.stream);
+
+        if self.all_data_read {
+            return;
+        }
 
         if conn.error.is_some() || (self.is_0rtt && conn.check_0rtt().is_err()) {
             return;
